@@ -141,7 +141,23 @@ def _merge_stats(acc, st):
 
 
 def _chunk_worker(args):
+    """Every chunk runs in a freshly forked child of the (never used) pool worker: whatever
+    process-global state a defect accumulates across runs starts from zero at every chunk boundary, so
+    the outcome of run i is a function of the runs chunk_start..i only -- deterministic whatever chunk
+    the worker handled before, and replayable ("context" replay files)."""
+    from . import pristine
+    deadline_s = args[5]
+    res = pristine._in_child(_chunk_body, args, deadline_s=deadline_s + 30)
+    if res[0] != "ok":
+        raise engine.HarnessError(f"chunk {args[3]}..{args[4]} did not finish: {res[1]}")
+    return res[1]
+
+
+def _chunk_body(args):
     plan, tier, seed, start, stop, deadline_s = args
+    if getattr(plan, "uses_pristine", False):
+        from . import pristine
+        pristine.adopt_zygote()
     faulthandler.enable()
     faulthandler.dump_traceback_later(deadline_s, exit=True)
     try:
@@ -215,7 +231,7 @@ def run_batch(plan, tier, seed, n_runs=None, workers=None, wall_cap_s=None):
             from . import pristine
             pristine.init_zygote()
         for c in chunks:
-            results.append(_chunk_worker(c))
+            results.append(_chunk_body(c))
     else:
         init = None
         if getattr(plan, "uses_pristine", False):
@@ -301,11 +317,63 @@ def minimise_and_write(plan, seed, idx, viol_json, scn, tag=""):
     return path, doc
 
 
+def run_range(plan, tier, seed, start, stop):
+    """Runs start..stop-1 of the seeded batch sequentially in THIS process; returns (run, violations) of
+    the last one.  (Context replay: a violation that needs the runs before it in the same process.)"""
+    run = viol = None
+    for idx in range(start, stop):
+        rng = random.Random(mix(seed, plan.prop, idx))
+        scn = plan.gen(rng, tier, idx)
+        try:
+            with engine.deadline(engine.RUN_DEADLINE_S, engine.RunTimeout):
+                run, viol = execute(plan, scn)
+        except engine.RunTimeout:
+            run, viol = None, []
+    return run, viol
+
+
+def write_context_replay(plan, tier, seed, start, idx, viol_json):
+    """Shortest suffix start'..idx of the chunk prefix that still reproduces (bisection), as a replay file."""
+    cls = viol_json[0]["class"]
+    os.makedirs(os.path.join(VERIF, "replays"), exist_ok=True)
+    path = os.path.join(VERIF, "replays", f"{plan.prop}-{seed}-{idx}-context.json")
+
+    def reproduces(s0):
+        doc = {"property": plan.prop, "mode": "context", "violation_class": cls, "verif_seed": seed,
+               "tier": tier, "start": s0, "run_index": idx, "expected": viol_json[0],
+               "note": "reproduces only after the runs that preceded it in the same process "
+                       "(process-global state); the replay re-executes runs start..run_index in one fresh process",
+               "how_to_replay": f"./check {plan.prop} --replay {path}"}
+        with open(path, "w") as f:
+            json.dump(doc, f, indent=1)
+        return verify_replay_in_fresh_process(plan.prop, path, timeout=900)
+    if not reproduces(start):
+        os.remove(path)
+        return None
+    lo, hi = start, idx              # invariant: reproduces(lo); try to raise lo
+    for _ in range(6):
+        mid = (lo + hi + 1) // 2
+        if mid == lo or mid > idx:
+            break
+        if reproduces(mid):
+            lo = mid
+        else:
+            hi = mid - 1
+    reproduces(lo)
+    return path
+
+
 def replay_file(plan, path):
     """Re-executes a replay file (world rebuilt from the spec, not from the PRNG).
     Returns (reproduced: bool, violations)."""
     with open(path) as f:
         doc = json.load(f)
+    if doc.get("mode") == "context":
+        run, v = run_range(plan, doc.get("tier", "quick"), doc["verif_seed"], doc["start"], doc["run_index"] + 1)
+        v = v or []
+        want = doc.get("violation_class")
+        hit = [x for x in v if want is None or x.oracle == want]
+        return bool(hit), hit, True, run if run is not None else engine.Run({"nodes": [], "points": [], "steps": []})
     run, v = execute(plan, doc["scenario"])
     want = doc.get("violation_class")
     hit = [x for x in v if want is None or x.oracle == want]
@@ -313,11 +381,11 @@ def replay_file(plan, path):
     return bool(hit), hit, same_step, run
 
 
-def verify_replay_in_fresh_process(prop, path):
+def verify_replay_in_fresh_process(prop, path, timeout=180):
     """The minimised file must fail the same way in a fresh interpreter."""
     cmd = [sys.executable, os.path.join(VERIF, "check"), prop, "--replay", path]
     try:
-        p = subprocess.run(cmd, capture_output=True, text=True, timeout=120)
+        p = subprocess.run(cmd, capture_output=True, text=True, timeout=timeout)
     except subprocess.TimeoutExpired:
         return False
     return p.returncode == 1 and f"VIOLATION property={prop}" in p.stdout
